@@ -301,16 +301,18 @@ func (l *tcpTransportListener) Listen(ctx context.Context, addr net.Addr) error 
 	l.done = make(chan struct{})
 	l.connChan = make(chan net.Conn, l.ConnBuffer)
 
-	go l.serve(listener)
+	go l.serve(listener, l.connChan, l.done)
 
 	return nil
 }
 
-func (l *tcpTransportListener) serve(listener net.Listener) {
+// serve accepts connections for one Listen call; connChan and done are the ones of that call
+// (the listener may be started again before this goroutine has ended).
+func (l *tcpTransportListener) serve(listener net.Listener, connChan chan net.Conn, done <-chan struct{}) {
 	defer func() {
-		close(l.connChan)
+		close(connChan)
 		// Connections that were accepted but not handed over are not left open
-		for conn := range l.connChan {
+		for conn := range connChan {
 			_ = conn.Close()
 		}
 	}()
@@ -319,7 +321,7 @@ func (l *tcpTransportListener) serve(listener net.Listener) {
 		conn, err := listener.Accept()
 		if err != nil {
 			select {
-			case <-l.done:
+			case <-done:
 				return
 			default:
 				log.Printf("tcp listener: serve: %v\n", err)
@@ -327,10 +329,10 @@ func (l *tcpTransportListener) serve(listener net.Listener) {
 			}
 		} else {
 			select {
-			case <-l.done:
+			case <-done:
 				_ = conn.Close()
 				return
-			case l.connChan <- conn:
+			case connChan <- conn:
 			}
 		}
 	}
